@@ -1735,11 +1735,13 @@ func (l *lexer) error(pos ast.Pos, msg string) {
 	if l.err != nil && strings.Contains(msg, ": unexpected EOF") {
 		return // lexing was interrupted
 	}
-	l.err = Error{
-		Name: l.name,
-		Pos:  pos,
-		Msg:  msg,
-	}
+	if _, ok := l.err.(Error); ok || l.err == nil {
+		l.err = Error{
+			Name: l.name,
+			Pos:  pos,
+			Msg:  msg,
+		}
+	} // otherwise keep the read error
 
 	select {
 	case <-l.cancel:
